@@ -383,6 +383,23 @@ def main(ctx):
             return rec.fail(case, "sizes %r: must differ by at most one, larger first" % (sizes,))
         rec.ok(case, outcome="split", nontrivial=(num % nch != 0), calls=1)
 
+    # the same arguments as numpy scalars of narrow types (u1/i1/i2): the chunk arithmetic must not wrap in that type
+    def one_isplit_typed(case, rec):
+        t, num, nch = case
+        try:
+            s = algorithm.isplit(np.dtype(t).type(num), np.dtype(t).type(nch))
+            ref = algorithm.isplit(int(num), int(nch))
+        except Exception as e:
+            return rec.fail(case, "isplit(%s(%d), %s(%d)) raised %s: %s" % (t, num, t, nch, type(e).__name__, e))
+        if [int(x) for x in s["start"]] != [int(x) for x in ref["start"]] or [int(x) for x in s["end"]] != [int(x) for x in ref["end"]]:
+            return rec.fail(case, "isplit(%s(%d), %s(%d)) = %r / %r, with Python ints %r / %r"
+                            % (t, num, t, nch, s["start"].tolist(), s["end"].tolist(), ref["start"].tolist(), ref["end"].tolist()))
+        rec.ok(case, outcome="typed:%s" % t, nontrivial=True, calls=2)
+
+    tyunits = [(t, num, nch) for (t, mx) in (("u1", 255), ("i1", 127), ("i2", 32767), ("u2", 65535))
+               for num in (mx, mx - 1, mx // 2 + 3, 100) for nch in (1, 2, 3, 7, 60, 100) if nch <= mx]
+    ctx.lattice("isplit-typed-arguments", tyunits, one_isplit_typed, bounds=dict(types=["u1", "i1", "i2", "u2"]))
+
     iunits = [(num, nch) for num in range(0, NUM + 1) for nch in range(1, NCH + 1)]
     iunits += [(num, nch) for num in (0, 1, 5) for nch in (0, -1, -7)]
     ctx.lattice("isplit", iunits, one_isplit, bounds=dict(num_max=NUM, nchunks_max=NCH))
